@@ -1,5 +1,6 @@
 import KtVerif.Model.Kmer
 import KtVerif.Model.Minimiser
+import KtVerif.Model.Vectors
 /-!
 # Driver glue (trusted, thin): parsing of request lines, printing of answers.
 
@@ -36,7 +37,7 @@ def fmtKRuns (l : List KRun) : String :=
 def fmtHexList (l : List (List Nat)) : String := joinWith "," (l.map hex)
 def b01 (b : Bool) : String := if b then "1" else "0"
 
-def answerWords : List String → String
+def answerWords0 : List String → String
   | ["kmers", k, hx] =>
     let k := k.toNat!; let s := unhex hx
     if kmerNewSafe k then
@@ -63,7 +64,117 @@ def answerWords : List String → String
     else "panic:kmin-new"
   | _ => "bad-op"
 
-def answer (line : String) : String :=
-  answerWords ((line.trimAscii.toString.splitOn " ").filter (· ≠ ""))
+
+/-- memoised `kmerPosMaps k` (the tables are requested thousands of times) -/
+structure Cache where
+  pms : Array (Option PosMaps) := Array.replicate 16 none
+  cls : Array (Option (List Nat)) := Array.replicate 16 none
+
+/-- memoised `canonList k` -/
+def Cache.canon (c : Cache) (k : Nat) : Cache × List Nat :=
+  match c.cls[k]? with
+  | some (some cl) => (c, cl)
+  | _ =>
+    let cl := canonList k
+    ({ c with cls := c.cls.setIfInBounds k (some cl) }, cl)
+
+def Cache.get (c : Cache) (k : Nat) : Cache × PosMaps :=
+  match c.pms[k]? with
+  | some (some pm) => (c, pm)
+  | _ =>
+    let pm := kmerPosMaps k
+    ({ c with pms := c.pms.setIfInBounds k (some pm) }, pm)
+
+def fmtBits (l : List Nat) : String := joinWith "," (l.map fun x => toString (f64Bits x))
+def fmtPts (l : List (Nat × Nat)) : String :=
+  joinWith "," (l.map fun p => s!"{f64Bits p.1}:{f64Bits p.2}")
+
+/-- counts table given as `x:c,x:c,…` (or `-`) -/
+def parseCounts (s : String) : List (Nat × Nat) :=
+  if s = "-" then [] else
+    (s.splitOn ",").filterMap fun e =>
+      match e.splitOn ":" with
+      | [a, b] => some (a.toNat!, b.toNat!)
+      | _ => none
+
+def lookupCount (tbl : List (Nat × Nat)) (x : Nat) : Nat :=
+  match tbl.find? (fun p => p.1 == x) with
+  | some p => p.2
+  | none => 0
+
+/-- C11 spec verdict on a list of points given as scaled doubles: exact equality with the dyadic
+    value while it is representable in 53 bits, containment in the sub-square of the last `j` bases
+    otherwise (j as large as keeps the bounds representable).  Returns the index of the first
+    offending point. -/
+def cgrJudge (S : Nat) (s : List Nat) (pts : List (Nat × Nat)) : Option Nat :=
+  match cgrExact S s with
+  | none => if pts.isEmpty then none else some 0
+  | some ex =>
+    if ex.length ≠ pts.length then some (min ex.length pts.length) else
+    let corners := s.map fun b => (cornerSpec b).getD (0, 0)
+    let j := 52 - bitLen S
+    let okc := fun (N e v : Nat) (cs : List Nat) =>
+      -- exact scaled value N * 2^1074 / 2^e, if it is a double
+      let num := N * f64One
+      if num % 2 ^ e = 0 ∧ roundRat (num / 2 ^ e) 1 = num / 2 ^ e then
+        v = num / 2 ^ e
+      else
+        -- last jj corners (most recent first) confine v to [A, A + S/2^jj]
+        let jj := min j cs.length
+        let A := (List.range jj).foldl (fun a t => a + (cs.getD t 0) * S * f64One / 2 ^ (t + 1)) 0
+        A ≤ v ∧ v ≤ A + S * f64One / 2 ^ jj
+    -- `rx`, `ry`: corners seen so far, most recent first (only the last `j` are kept)
+    let rec go (i : Nat) (rx ry : List Nat) :
+        List (Nat × Nat) → List (Nat × Nat × Nat) → List (Nat × Nat) → Option Nat
+      | _, [], _ => none
+      | _, _, [] => none
+      | [], _, _ => none
+      | (cx, cy) :: cr, (X, Y, e) :: er, (x, y) :: pr =>
+        let rx := (cx :: rx).take j
+        let ry := (cy :: ry).take j
+        if okc X e x rx ∧ okc Y e y ry then go (i + 1) rx ry cr er pr else some i
+    go 0 [] [] corners ex pts
+
+def answerWords (c : Cache) : List String → Cache × String
+  | ["oligo", k, norm, hx, dl] =>
+    let k := k.toNat!; let norm := norm == "1"; let s := unhex hx; let delim := unhex dl
+    let (c, pm) := c.get k
+    let (c, cl) := c.canon k
+    let (cs, t) := oligoCounts pm k s
+    (c, joinWith "|" ["ok", fmtNats cs, toString t, fmtNats (oligoRowSpecWith cl k s), toString (windowCount k s),
+      fmtBits (oligoVec pm k norm s), hex (rowText norm delim cs t), b01 (oligoSafe pm k s)])
+  | ["cov", k, bs, bc, norm, hx, dl, tbl] =>
+    let k := k.toNat!; let bs := bs.toNat!; let bc := bc.toNat!; let norm := norm == "1"
+    let s := unhex hx; let delim := unhex dl
+    let cnt := lookupCount (parseCounts tbl)
+    if covSafe bc ∧ bs ≥ 1 then
+      let (cs, t) := covCounts k bs bc cnt s
+      (c, joinWith "|" ["ok", fmtNats cs, toString t, fmtNats (covRowSpec k bs bc cnt s), toString (windowCount k s),
+        fmtBits (if norm then normalise cs t else cs.map f64OfNat), hex (rowText norm delim cs t)])
+    else (c, "panic:cov-bins")
+  | ["cgr", sz, hx] =>
+    let S := sz.toNat!; let s := unhex hx
+    match cgrF64 S s with
+    | none => (c, joinWith "|" ["err", b01 (cgrExact S s).isNone])
+    | some pts => (c, joinWith "|" ["ok", fmtPts pts, match cgrJudge S s pts with | none => "1" | some i => s!"0@{i}"])
+  | ["cgrjudge", sz, hx, pts] =>
+    -- the implementation's points as IEEE bit patterns `xbits:ybits,…`
+    let S := sz.toNat!; let s := unhex hx
+    let ps := if pts = "-" then [] else (pts.splitOn ",").filterMap fun e =>
+      match e.splitOn ":" with
+      | [a, b] => some (f64Unbits a.toNat!, f64Unbits b.toNat!)
+      | _ => none
+    (c, match cgrJudge S s ps with | none => "ok" | some i => s!"viol@{i}")
+  | ["oligocgr", k, sz, norm, hx] =>
+    let k := k.toNat!; let S := sz.toNat!; let norm := norm == "1"; let s := unhex hx
+    let (c, pm) := c.get k
+    match oligoCgrRow pm k S norm s with
+    | none => (c, "err")
+    | some row =>
+      (c, joinWith "|" ["ok", joinWith "," (row.map fun t => s!"{f64Bits t.1}:{f64Bits t.2.1}:{f64Bits t.2.2}")])
+  | ws => (c, answerWords0 ws)
+
+def answer (c : Cache) (line : String) : Cache × String :=
+  answerWords c ((line.trimAscii.toString.splitOn " ").filter (· ≠ ""))
 
 end KT.Driver
